@@ -39,7 +39,12 @@ impl Reason {
 struct Type { _p: u8 }
 uninterp spec fn same_type(a: Type, b: Type) -> bool;
 uninterp spec fn nominal(n: NominalType) -> Type;
+/// the type of a class object (`Foo` itself, the receiver of its static functions): a nominal type with is_class_statics set
+uninterp spec fn class_object(t: Type) -> bool;
 impl Type {
+  /// R3: `t.as_nominal().is_some_and(|n| n.is_class_statics)` on the opaque type
+  #[verifier::external_body]
+  fn is_class_object(&self) -> (r: bool) ensures r == class_object(*self) { unimplemented!() }
   #[verifier::external_body]
   fn is_the_same_type(&self, other: &Type) -> (r: bool) ensures r == same_type(*self, *other) { unimplemented!() }
   #[verifier::external_body]
@@ -95,13 +100,15 @@ spec fn violates_bound(type_params: Seq<TypeParameterSignature>, subst_map: Map<
   type_params[k].bound is Some && subst_map.contains_key(type_params[k].name) && {
     let bound = nominal(type_system::substituted(type_params[k].bound->Some_0, subst_map));
     let arg = *subst_map[type_params[k].name];
-    !same_type(arg, bound) && !subtype(arg, bound)
+    // a class object is not an instance of its class although the two types have the same name (fix 4169e1c)
+    (class_object(arg) || !same_type(arg, bound)) && !subtype(arg, bound)
   }
 }
 
 //@extract crates/samlang-checker/src/main_checker.rs :: fn validate_type_arguments
 //@replace Type::Nominal(type_system::subst_nominal_type(bound, subst_map)) => Type::nominal_of(type_system::subst_nominal_type(bound, subst_map)) ## R3: enum constructor of the opaque type
 //@replace solved_type_argument.get_reason().use_loc => solved_type_argument.get_reason().use_loc() ## R3: field of the opaque reason
+//@replace solved_type_argument.as_nominal().is_some_and(|n| n.is_class_statics) => solved_type_argument.is_class_object() ## R3: the class-object flag of the opaque type
 //@contract
     requires
       vstd::std_specs::hash::obeys_key_model::<PStr>(),
